@@ -85,8 +85,7 @@ extern "C" void harness_c08_stringify() {
   int n = nondet_int();
   ASSUME(n >= 0 && n <= LMAX);
   char b[LMAX + 1];
-  for (int i = 0; i < LMAX; i++) b[i] = pick_str_char();
-  b[LMAX] = 0;
+  FILL_SYMBOLIC(b, LMAX, n, pick_str_char);
   char ref[2 * LMAX + 3];
   bool wf, oq;
   int rn = ref_stringify(b, n, ref, &wf, &oq);
@@ -96,7 +95,7 @@ extern "C" void harness_c08_stringify() {
   ASSUME(!oq);
 #endif
 #endif
-  std::string src(b, (size_t)n);
+  SYMBOLIC_STRING(src, b, LMAX, n);
   std::string r = CPPManifest::stringify(src);
 #ifndef TOTALITY
   bool same = r.size() == (size_t)rn;
@@ -184,8 +183,7 @@ extern "C" void harness_c08_extract_args() {
   int n = nondet_int();
   ASSUME(n >= 0 && n <= AMAX);
   char b[AMAX + 1];
-  for (int i = 0; i < AMAX; i++) b[i] = pick_call_char();
-  b[AMAX] = 0;
+  FILL_SYMBOLIC(b, AMAX, n, pick_call_char);
   RefArgs R;
   ref_split(b, n, &R);
 #ifndef TOTALITY
@@ -198,7 +196,7 @@ extern "C" void harness_c08_extract_args() {
   m->_has_parameters = true;
   m->_num_parameters = 0;
   m->_variadic_param = 0;
-  std::string expr(b, (size_t)n);
+  SYMBOLIC_STRING(expr, b, AMAX, n);
   vector_string *args = new vector_string;   // grows through c08_fixedvec.h
   size_t p = 0;
   m->extract_args(*args, expr, p);
